@@ -19,6 +19,7 @@ PROPS = {
             "GN.Props.C10.range_checks_exact", "GN.Props.C10.stored_bytes_are_twos_complement",
             "GN.Props.C10.store_places_exactly", "GN.Props.C10.sign_extension_exact",
             "GN.Props.C10.read_back_what_was_written", "GN.Props.C10.failure_leaves_buffer_unchanged",
+            "GN.Props.C10.model_refines_spec", "GN.Props.C10.every_specified_name_is_registered",
         ],
         "rule": "cases = (method from the registered prototype names, buffer of 0-24 random/sign-pattern bytes, value/offset/byteLength from boundary pools: every power-of-two boundary of every width +-1, offsets around 0/len/2^31/2^53/2^63, NaN/Inf/fractions/wrong types/missing); one PRNG seeded by VERIF_SEED. distinct_nontrivial = distinct case lines that lie inside the property's claimed domain (integral values and offsets; the specification has a verdict) and on which implementation, model and specification agreed",
         "trusted_base": COMMON_TRUSTED + [
@@ -68,7 +69,7 @@ PROPS = {
         "props_modules": ["GN.Props.C12"],
         "theorems": ["GN.Props.C12." + t for t in [
             "delete_eq_spec", "table_escapes_specials", "escape_shape", "unescape_escape_id", "unescape_clauses",
-            "parse_clauses", "getters", "iter_live"]],
+            "parse_clauses", "getters", "iter_live", "set_eq_spec", "sort_spec", "parse_serialize_id"]],
         "rule": "cases = a constructor form (none, query string assembled from pieces incl. '?', '&&', '+', valid/malformed %XX, ill-formed UTF-8 escapes; record; iterable of pairs; another URLSearchParams) followed by 0-15 operations (append, delete by name / name+value / name+undefined, set, sort, get, getAll, has, keys/values/entries iterators created at any time and advanced later) over a small alphabet with duplicates, empty, reserved and non-ASCII names; observed after the constructor and after every operation: Array.from(p), size, toString(), the operation's result, forEach agreement, and parse(toString()) = list on the implementation itself. The Lean driver runs the code-shaped model (index loops) and, separately, the list-level specification (filter / WHATWG set / stable merge sort). distinct_nontrivial = distinct case lines on which all three agreed",
         "signature": lambda c, v: c.split(" ")[1],
         "trusted_base": COMMON_TRUSTED + ["goja's string conversion (ill-formed UTF-8 -> U+FFFD, modelled by sanitizeUtf8) and property order of records (the harness passes Object.keys order)",
